@@ -432,6 +432,15 @@ func TestVerifC35(t *testing.T) {
 				r.Eval(fmt.Sprintf("whip-session|%d|%d", done, k))
 			}
 		}()
+		wg.Add(1)
+		go func() {
+			defer wg.Done()
+			for k := 0; k < 4; k++ {
+				o := c35MoQ(rng, &genMu, ports["moqquic"])
+				r.SetAdd("moq_quic_session_outcomes", o)
+				r.Eval(fmt.Sprintf("moq-quic-session|%d|%d", done, k))
+			}
+		}()
 		wg.Wait()
 		time.Sleep(50 * time.Millisecond)
 		if !child.alive() {
@@ -454,6 +463,6 @@ func TestVerifC35(t *testing.T) {
 	for _, tg := range targets {
 		r.Sample(map[string]any{"listener": tg.name, "transport": tg.proto, "port": tg.port})
 	}
-	r.Finish("the real server (core.New) in a child process with every listener enabled (RTSP TCP + UDP RTP / RTCP, RTMP, SRT, WebRTC HTTP + UDP, HLS, MoQ HTTP + QUIC, Control API, playback, metrics, pprof) and default authentication; first every RTSP method x 11 URL shapes as otherwise well-formed requests, then unauthenticated inputs round-robin over 16 targets: generated RTSP request sequences (hostile methods, URLs, CSeq, Content-Length, Transport, Session, Authorization, Range; SDP bodies; interleaved frames), RTMP handshakes followed by chunks with hostile lengths / types / AMF fragments, HTTP requests per endpoint family (hostile paths, queries, headers, JSON / SDP / ICE bodies, wrong Content-Length), mutated HTTP/2 prefaces, random bytes, RTP / RTCP datagrams, SRT handshakes with hostile fields, STUN messages with hostile attributes, QUIC initial packets; plus a stateful actor that opens WHIP / WHEP sessions anonymously with a real offer (pion) and sends hostile trickle-ICE PATCH / DELETE / POST requests to the session URL. Oracle: the process is alive after every batch of 16 inputs and at the end; a crash is reported with the panic site from its stderr. non-trivial = distinct (listener, input)",
+	r.Finish("the real server (core.New) in a child process with every listener enabled (RTSP TCP + UDP RTP / RTCP, RTMP, SRT, WebRTC HTTP + UDP, HLS, MoQ HTTP + QUIC, Control API, playback, metrics, pprof) and default authentication; first every RTSP method x 11 URL shapes as otherwise well-formed requests, then unauthenticated inputs round-robin over 16 targets: generated RTSP request sequences (hostile methods, URLs, CSeq, Content-Length, Transport, Session, Authorization, Range; SDP bodies; interleaved frames), RTMP handshakes followed by chunks with hostile lengths / types / AMF fragments, HTTP requests per endpoint family (hostile paths, queries, headers, JSON / SDP / ICE bodies, wrong Content-Length), mutated HTTP/2 prefaces, random bytes, RTP / RTCP datagrams, SRT handshakes with hostile fields, STUN messages with hostile attributes, QUIC initial packets; plus an actor that opens real QUIC connections to the MoQ listener (ALPN moqt-16..19) and sends SETUP / CLIENT_SETUP and other control messages with hostile option and message lengths (0, beyond the message, 2^63, 2^64-1) on uni- and bidirectional streams, and a stateful actor that opens WHIP / WHEP sessions anonymously with a real offer (pion) and sends hostile trickle-ICE PATCH / DELETE / POST requests to the session URL. Oracle: the process is alive after every batch of 16 inputs and at the end; a crash is reported with the panic site from its stderr. non-trivial = distinct (listener, input)",
 		"TLS listeners other than MoQ's are not enabled (their TCP payload reaches the same handlers after the TLS layer); inputs are stateless sequences, not long sessions")
 }
